@@ -258,6 +258,15 @@ def stepG (K : SkOps α) (mk : Nat → Bool → List (Nat × Nat) → Except GEr
           | .ok l => (st, "ok " ++ showCanon l false)
       | _, _ => bad
     | _, _ => bad
+  | "xpfc" :: q :: thr :: ds =>
+    -- impl-only observation (`search.prefetch_database`, what `sourmash prefetch` prints: the rows of
+    -- `Index.prefetch` that pass `PrefetchResult.pass_threshold`): the model only checks that the op is well formed
+    match nats? [q, thr], nats? ds with
+    | some [q, _], some ds =>
+      match getSig st q, ds.mapM (getDb st) with
+      | some _, some _ => (st, "x")
+      | _, _ => bad
+    | _, _ => bad
   | "gd" :: q :: thr :: ign :: noid :: ident :: cs =>
     match nats? [q, thr], bool? ign, optSig st noid, optSig st ident, cs.mapM (parseCObj st) with
     | some [q, thr], some ign, some noid, some ident, some cs =>
